@@ -64,6 +64,12 @@ func c04RecN(r *Rec) []N {
 	return out
 }
 
+// stages whose model is independent of the sign of the values (so scripts may use -3..3)
+var c04SignSafe = map[string]bool{"Max": true, "Min": true, "Sum": true, "Count": true, "Clamp": true, "Skip": true, "Take": true,
+	"TakeLast": true, "SkipLast": true, "Head": true, "Tail": true, "ElementAt": true, "ElementAtOrDefault": true, "IgnoreElements": true,
+	"DefaultIfEmpty": true, "ToSliceFlatten": true, "StartWith": true, "EndWith": true, "BufferWithCount": true, "Distinct": true,
+	"MaterializeDematerialize": true, "Serialize": true, "Tap": true, "MapTo": true}
+
 // c04Script: values over the alphabet {1,2,3} (repeats allowed), length 0..5, sometimes up to 8, rarely
 // longer, with the three endings.
 func c04Script(g *Gen) []Step {
@@ -208,7 +214,7 @@ func runC04Pipeline(e *Env) {
 		extra = fmt.Sprintf(" (Subscribe panicked: %v)", h.Panic)
 	}
 	if len(sc.Stages) == 1 {
-		c04Violate(e, "model:"+sc.Stages[0].Op, fmt.Sprintf("%s over [%s] (%s source) delivered [%s]; documented: %s%s",
+		c04Violate(e, c04ModelClause(sc.Stages[0].Op, in), fmt.Sprintf("%s over [%s] (%s source) delivered [%s]; documented: %s%s",
 			c04DescribeStages(sc), traceN(in), sc.Sources[0].Mode, traceN(got), setN(want), extra))
 		return
 	}
@@ -233,7 +239,7 @@ func runC04Pipeline(e *Env) {
 			break
 		}
 		if !memberN(set, cur) {
-			clause, note := "model:"+st.Op, ""
+			clause, note := c04ModelClause(st.Op, prev), ""
 			if n := len(prev); !prevReturned && n > 0 && prev[n-1].K != 'N' {
 				// the upstream part delivered its terminal notification but its Subscribe call never
 				// returned (an operator in it is waiting for a silent source): a stage that has to act
@@ -249,6 +255,24 @@ func runC04Pipeline(e *Env) {
 	}
 	c04Violate(e, "chain", fmt.Sprintf("chain %s over [%s] (%s source) delivered [%s]; the composition of the stage models gives %s although every stage on its own conforms%s",
 		c04DescribeStages(sc), traceN(in), sc.Sources[0].Mode, traceN(got), setN(want), extra))
+}
+
+// c04ModelClause names the violated clause. The empty-input case of Max is a recorded finding (the zero
+// value is emitted, pinned by an existing test); it gets its own clause so that any other deviation of
+// Max from its definition is still reported.
+func c04ModelClause(op string, in []N) string {
+	if op == "Max" {
+		empty := true
+		for _, n := range in {
+			if n.K == 'N' {
+				empty = false
+			}
+		}
+		if empty {
+			return "model:Max:empty-source"
+		}
+	}
+	return "model:" + op
 }
 
 func c04GrammarOK(t []N) bool {
@@ -270,8 +294,17 @@ func init() {
 			for {
 				sc := &Scn{Family: "C04.stage"}
 				script := c04Script(g)
+				name := names[g.Intn(len(names))]
+				if c04SignSafe[name] && g.Bool(0.3) {
+					// sign-sensitive operators also see negative and zero values
+					for i := range script {
+						if script[i].K == "N" {
+							script[i].V = g.Range(-3, 3)
+						}
+					}
+				}
 				sc.Sources = []SrcSpec{{Mode: g.Pick("sync", "sync", "sync", "async"), Script: script}}
-				addStage(g, sc, names[g.Intn(len(names))], nvalues(script), "sync")
+				addStage(g, sc, name, nvalues(script), "sync")
 				sc.SetInt("seqmode", 1)
 				if c04ValidPipeline(sc, 1, 1) {
 					return sc
